@@ -60,7 +60,7 @@ impl Pools {
     pub fn basic() -> Pools {
         Pools {
             authors: vec![author(0), author_twin(0), author(1), author(2)],
-            kinds: vec![1, 1, 7, 0, 3, 10002, 30023, 30024, 1059, 20001, 5],
+            kinds: vec![1, 1, 7, 0, 3, 10002, 30023, 30024, 1059, 20001, 5, 62],
             times: vec![0, 1, 100, 101, 102, 103, 200, 255, 256, 65535, 65536, (1 << 32) - 1, 1 << 32, (1 << 32) + 1],
             dvals: vec!["".into(), "x".into(), "y".into(), "x:y".into(), "x\u{0}".into(), long_d(182, "a"), long_d(183, "ab"), long_d(183, "ac")],
             tvals: vec!["".into(), "a".into(), "b".into(), "ab".into(), "A".into(), "a966a0c7a966a0c7a966a0c7a966a0c7a966a0c7a966a0c7a966a0c7a966a0c7".into(), "A966A0C7A966A0C7A966A0C7A966A0C7A966A0C7A966A0C7A966A0C7A966A0C7".into(), "a\u{0}".into(), long_d(182, "p"), long_d(190, "q1"), long_d(190, "q2"), "nostr".into()],
